@@ -29,6 +29,10 @@ def num_literal(prim, text):
         t = text.strip()
         if t.lower() in ("nan",):
             return None
+        if t.upper() in ("INF", "+INF"):
+            return "((%s)__builtin_inf())" % P["c"]
+        if t.upper() == "-INF":
+            return "((%s)(-__builtin_inf()))" % P["c"]
         if "." not in t and "e" not in t.lower() and "inf" not in t.lower():
             t += ".0"
         return "(%s)%s%s" % (P["c"], t, "F" if prim == "float" else "")
@@ -441,9 +445,46 @@ def cvisit_contracts(cs, tier):
     return out
 
 
+def psize_contracts(cs, tier):
+    """traits-level size_bytes(counts..., total_data_size) against the oracle's formula (C05)"""
+    sch, g, u = cs.schema, cs.gen, cs.unit
+    out = []
+
+    def lw(e):
+        off, prim = sch.header_member(e, "length")
+        return PRIMS[prim]["size"]
+
+    for idn, L, gl, has_data in g.psize_roots:
+        f = u.root("r_trsz_" + idn)
+        names = f.p
+        cnt = {id(gr): "(unsigned long)%s" % names[k] for k, gr in enumerate(gl)}
+
+        def per_entry(G):
+            return G.block_length + sum(x.dimension.size for x in G.groups) + sum(lw(e) for _, e, _ in G.data)
+
+        def payload(G):
+            s_ = "%s * %dUL" % (cnt[id(G)], per_entry(G))
+            for x in G.groups:
+                s_ += " + " + payload(x)
+            return s_
+
+        if L.kind == "group":
+            expr = "%dUL + %s" % (L.dimension.size, payload(L))
+        else:
+            expr = "%dUL" % (sch.header.size + L.block_length)
+            for x in L.groups:
+                expr += " + %dUL + %s" % (x.dimension.size, payload(x))
+            expr += " + %dUL" % sum(lw(e) for _, e, _ in L.data)
+        if has_data:
+            expr += " + (unsigned long)%s" % names[-1]
+        out.append(Contract(f, "%s:traits size_bytes(counts) %s" % (cs.name, idn), props={"C05", "C18"}, pre=[], post=[("equals-encoded-size-formula", "RET == %s" % expr)], assigns=[]))
+    return out
+
+
 def contracts(tier):
     out = []
     for cs in corpus.schemas(tier):
+        out += psize_contracts(cs, tier)
         out += cvisit_contracts(cs, tier)
     for cs in corpus.schemas(tier, asserts="unchecked"):
         if cs.name.endswith("_be") and tier != "thorough":
